@@ -40,6 +40,7 @@ class GreenThread:
         self.links = []
         self.task = sim.new_task(proc, self._main, name, False)
         self.task.greenlet = True
+        proc.coop = True
         self.task.gt = self
         self._call = (fn, args, kw)
 
@@ -108,7 +109,10 @@ def kill(g, *throw_args):
     s.ev(p.name, "gt-kill", (g.task.name, type(exc).__name__))
     g.task.throw = exc
     if g.task is not t:
-        s.yield_now()          # the target runs (to its next blocking call) before the caller goes on, as with greenlet.throw
+        # greenlet.throw switches into the target at once: it handles the exception (up to its next blocking call, or its end) before
+        # the caller goes on
+        tk = g.task
+        s.block(lambda: tk.throw is None or tk.state == "done" or g.dead, None, True, False)
 
 
 class GreenPool:
